@@ -37,6 +37,8 @@ pub enum TOp {
   SubscribeNesting,
   Retain,
   Size,
+  /// `unsubscribe()` on a clone of the subject itself
+  UnsubSubject,
 }
 
 #[derive(Clone, Debug, Hash)]
@@ -140,6 +142,7 @@ pub fn execute(case: &TCase) -> TOutcome {
               rec.probe = Some(w.subscribe_nesting(mk()));
             }
             TOp::Retain => w.hot[0].clone().retain(),
+            TOp::UnsubSubject => w.hot[0].clone().unsubscribe(),
             TOp::Size => {
               let _ = w.hot[0].is_empty();
               let _ = w.hot[0].len();
